@@ -187,6 +187,9 @@ func C07(c *core.Ctx) {
 		// a rejected filter that shares its leading level with granted ones (same packet and earlier packets)
 		{Kind: "sub", Client: "S", ID: 8, Filters: []string{"a/b", "a/#/x"}, QoSs: []byte{1, 1}},
 		pub("P", "a", 1, 6, "pa"), pub("P", "a/b", 0, 0, "pab"), pub("S", "a", 1, 7, "self"),
+		// a subscription to everything, and topics with an empty level where a '#' sits
+		// (a trailing '#' matches them like any other level)
+		sub("S", 9, "#", 0), pub("P", "/x", 0, 0, "lead-empty"), pub("P", "a//x", 0, 0, "inner-empty"),
 	}
 	depth := 4
 	if c.Thorough() {
